@@ -833,6 +833,9 @@ package zygo
 //@ func (*Zlisp).Apply
 //@ C16 assert wrapped-only-if-lazy @before call NewValueLazyArg[0]: lazyPos(fun, i)
 //@ C16 assert strict-pushed-as-is @before call PushExpr[1]: !lazyPos(fun, i) && arg1 == expr
+// apply / map hand Apply the caller's own array (e.Val, arr.Val[i:i+1]): the wrapping goes on the
+// data stack, never back into that array
+//@ C16 assert the-callers-array-is-left-alone @before call storeelem[*]: sarr(arg0) != sarr(args)
 
 // forcing: a forced argument returns its memoised value and evaluates nothing;
 // a successful force memoises its result
